@@ -190,7 +190,7 @@ int main(int argc, char** argv) {
                 if (conv) { if (t == "gray8") return dispatch_conv<gil::pnm_tag, gil::gray8_image_t>(w, path); if (t == "rgb8") return dispatch_conv<gil::pnm_tag, gil::rgb8_image_t>(w, path); return "unsupported"; }
                 if (t == "gray8") return dispatch<gil::pnm_tag, gil::gray8_image_t>(w, path);
                 if (t == "rgb8") return dispatch<gil::pnm_tag, gil::rgb8_image_t>(w, path);
-                if (t == "gray1") return dispatch<gil::pnm_tag, gil::gray1_image_t>(w, path);
+                if (t.compare(0, 5, "gray1") == 0) return dispatch<gil::pnm_tag, gil::gray1_image_t>(w, path);   // gray1[-r][s]: the suffix selects the model variant
             }
 #endif
 #if SEL(3)
